@@ -25,8 +25,8 @@ CHECKS = {
    text="TLC checks QuiescentGrant on SpscRA with the extracted batch/publish rule; counterexamples are replayed on the real queue and judged by "
         "the contract (a capacity-sized request on a drained, committed queue must be granted); random walks with quiescent probes on bounded "
         "and unbounded queues validated by TLC",
-   note="queue level only so far (end-to-end blocked-producer scenario is part of the system harness work); 'idle backend' = consumer observed "
-        "empty and called commit_read",
+   note="queue level + Quill.tla NoStall/Resumes + end-to-end blocked-producer scenarios; 'idle backend' = consumer observed empty and "
+        "called commit_read; 1 known finding (non-power-of-two maximum)",
    tech="TLA+ model checking + counterexample replay + TLC trace validation"),
  "C18": dict(engine="tlc+h_sys", cat=MC, ref="4 C18",
    text="TLC proves ring==contract window for every history up to the bound (Backtrace.tla), exports one history per transition, each is executed "
@@ -35,22 +35,25 @@ CHECKS = {
         "drained after every operation",
    tech="TLA+ model checking + TLC trace validation of real executions"),
 }
-SYSNOTE = 'seeded random schedules only so far at system level (no exhaustive schedule enumeration of the real code); token scheduler serialises logical threads between yield points (QUILL_VERIF hooks, interposed clock/sleep); relaxed flags outside the queues behave sequentially consistent under it'
+SYSNOTE = ('Quill.tla (implementation-shaped, cut at the QUILL_VERIF yield points, constants extracted) is exhaustive for small configurations '
+           'only (2-3 threads x 1-2 statements); the real code is observed on the exported schedules (sampled in quick) and on seeded random '
+           'scenario families, serialised by the token scheduler between yield points (hooks, interposed clock/sleep); relaxed flags outside '
+           'the queues behave sequentially consistent under it; unbounded queues are never full in the model')
 CHECKS.update({
  "C03": dict(engine="tlc+h_sys", cat=MC, ref="4 C03",
-   text="executions of the real frontend/backend under seeded schedules (several threads, sizes up to the queue capacity, thread exits, flushes, fine-grained backend steps) are validated by TLC against QuillContract (exactly once, per-thread order, completeness at quiescence)",
+   text="Quill.tla checked exhaustively for small configurations (per-action checks of this property, I=>A on every exported behaviour, schedules replayed on the real code with state comparison); plus executions of the real frontend/backend under seeded schedules (several threads, sizes up to the queue capacity, thread exits, flushes, fine-grained backend steps) are validated by TLC against QuillContract (exactly once, per-thread order, completeness at quiescence)",
    note=SYSNOTE,
    tech="TLA+ contract monitor + TLC trace validation of real executions under a deterministic scheduler"),
  "C05": dict(engine="tlc+h_sys", cat=MC, ref="4 C05",
-   text="executions under a virtual clock (stalls between clock read and enqueue, ticks, fine-grained backend steps) validated by TLC against QuillContract: write timestamps non-decreasing while no enqueue exceeded the grace period",
+   text="Quill.tla checked exhaustively for small configurations (per-action checks of this property, I=>A on every exported behaviour, schedules replayed on the real code with state comparison); plus executions under a virtual clock (stalls between clock read and enqueue, ticks, fine-grained backend steps) validated by TLC against QuillContract: write timestamps non-decreasing while no enqueue exceeded the grace period",
    note=SYSNOTE,
    tech="TLA+ contract monitor + TLC trace validation of real executions under a deterministic scheduler"),
  "C06": dict(engine="tlc+h_sys", cat=MC, ref="4 C06",
-   text="executions with flush_log calls (incl. first-time threads, dropping queues) validated by TLC against QuillContract: at return every earlier statement (own; all threads when ordering is on) is written and covered by a later sink flush; stuck flush = violation",
+   text="Quill.tla checked exhaustively for small configurations (per-action checks of this property, I=>A on every exported behaviour, schedules replayed on the real code with state comparison); plus executions with flush_log calls (incl. first-time threads, dropping queues) validated by TLC against QuillContract: at return every earlier statement (own; all threads when ordering is on) is written and covered by a later sink flush; stuck flush = violation",
    note=SYSNOTE,
    tech="TLA+ contract monitor + TLC trace validation of real executions under a deterministic scheduler"),
  "C08": dict(engine="tlc+h_sys", cat=MC, ref="4 C08",
-   text="executions on dropping queues validated by TLC against QuillContract: false return iff never written, accepted => delivered, reported discard counts add up at final quiescence (bounded), control requests never discarded",
+   text="Quill.tla checked exhaustively for small configurations (per-action checks of this property, I=>A on every exported behaviour, schedules replayed on the real code with state comparison); plus executions on dropping queues validated by TLC against QuillContract: false return iff never written, accepted => delivered, reported discard counts add up at final quiescence (bounded), control requests never discarded",
    note=SYSNOTE,
    tech="TLA+ contract monitor + TLC trace validation of real executions under a deterministic scheduler"),
  "C10": dict(engine="tlc+h_sys", cat=MC, ref="4 C10",
@@ -62,11 +65,11 @@ CHECKS.update({
    note=SYSNOTE,
    tech="TLA+ contract monitor + TLC trace validation of real executions under a deterministic scheduler"),
  "C17": dict(engine="tlc+h_sys", cat=MC, ref="4 C17",
-   text="executions with create/get/remove/remove_blocking/re-create cycles and shared sinks validated by TLC against QuillContract: nothing logged before removal is lost, sinks destroyed only when unreferenced, blocking removal returns after completion, idempotent create/get",
+   text="Quill.tla checked exhaustively for small configurations (per-action checks of this property, I=>A on every exported behaviour, schedules replayed on the real code with state comparison); plus executions with create/get/remove/remove_blocking/re-create cycles and shared sinks validated by TLC against QuillContract: nothing logged before removal is lost, sinks destroyed only when unreferenced, blocking removal returns after completion, idempotent create/get",
    note=SYSNOTE,
    tech="TLA+ contract monitor + TLC trace validation of real executions under a deterministic scheduler"),
  "C20": dict(engine="tlc+h_sys", cat=MC, ref="4 C20",
-   text="executions with thread start/log/exit/shrink schedules and N short-lived threads between idle periods (N around 256, 512..) validated by TLC against QuillContract: retained contexts = live threads that logged, shrink takes effect, delivery intact",
+   text="Quill.tla checked exhaustively for small configurations (per-action checks of this property, I=>A on every exported behaviour, schedules replayed on the real code with state comparison); plus executions with thread start/log/exit/shrink schedules and N short-lived threads between idle periods (N around 256, 512..) validated by TLC against QuillContract: retained contexts = live threads that logged, shrink takes effect, delivery intact",
    note=SYSNOTE,
    tech="TLA+ contract monitor + TLC trace validation of real executions under a deterministic scheduler"),
 })
@@ -151,7 +154,7 @@ man = {"version": 1, "setup_cmd": "cd /verif && ./setup.sh",
        "hooks": {"guard": "QUILL_VERIF",
                  "enable": "harnesses are compiled against /repo/include with -DQUILL_VERIF (header-only library; no separate build of /repo is needed)",
                  "baseline_off_cmd": "cmake --build /repo/_build -j 12 && ctest --test-dir /repo/_build -j8 --timeout 900",
-                 "source_commits": ["f824c22", "99317fe", "199f97f"], "add_only": True},
+                 "source_commits": ["f824c22", "99317fe", "199f97f", "cfc0d4f", "47f3861"], "add_only": True},
        "engines": [
            {"name": "tlc", "path": "/usr/local/bin/tlc", "serves_properties": sorted(CHECKS),
             "kind_free_text": "TLA+ explicit-state model checker: exhaustive check of spec/*.tla, behaviour export, trace validation"},
